@@ -195,6 +195,9 @@ func presentations(c EvalCase, seed int64) []presentation {
 	ps = append(ps, presentation{name: "rules-reversed", c: with(reversed(c.Rules), c.Edb), unmap: ident})
 	ps = append(ps, presentation{name: "rules-shuffled", c: with(permuted(c.Rules, rnd), permuted(c.Edb, rnd)), unmap: ident})
 	ps = append(ps, presentation{name: "facts-reversed", c: with(c.Rules, reversed(c.Edb)), unmap: ident})
+	fl := with(reversed(c.Rules), c.Edb)
+	fl.factsLast = true
+	ps = append(ps, presentation{name: "facts-after-rules", c: fl, unmap: ident})
 	// consistent variable renaming, a different bijection per rule
 	var rr []mgjson.Clause
 	for _, r := range c.Rules {
